@@ -140,8 +140,9 @@ class FrameCollector:
         f_locals = frame.f_locals
         _self = f_locals.get('self', None)
         class_name = None
-        if _self is not None and hasattr(_self, '__class__'):
-            class_name = _self.__class__.__name__
+        if _self is not None:
+            # the type, not _self.__class__: attribute access on an object of the application can raise
+            class_name = type(_self).__name__
 
         var_ids = []
         # only process vars if we are under the time limit
